@@ -551,6 +551,19 @@ def kills(w, f):
     return True
 
 
+def _alternatives(e, pol):
+    """The reasons a disjunction can be true (or a conjunction false): [[facts], [facts]] or None."""
+    e = sk(e)
+    if e is None or e.get("k") != "Bin":
+        return None
+    if (e["op"] == "||" and pol) or (e["op"] == "&&" and not pol):
+        a = [g for g in cond_facts(e["a"][0], pol) if g.kind == "cmp"]
+        b = [g for g in cond_facts(e["a"][1], pol) if g.kind == "cmp"]
+        if a and b:
+            return [a, b]
+    return None
+
+
 def _is_boolean(e):
     e = sk(e)
     return e is not None and ((e.get("k") == "Bin" and e["op"] in ("&&", "||", "==", "!=", "<", "<=", ">", ">=")) or
@@ -627,11 +640,14 @@ def cond_facts(c, truth):
     if k == "Bin" and c["op"] == "&&":
         if truth:
             return cond_facts(c["a"][0], True) + cond_facts(c["a"][1], True)
-        return []
+        alts = _alternatives(c, False)
+        return [Alt(alts)] if alts else []
     if k == "Bin" and c["op"] == "||":
         if not truth:
             return cond_facts(c["a"][0], False) + cond_facts(c["a"][1], False)
-        return []
+        # a disjunction that clang did not split (it was written into a flag first): one of the reasons holds
+        alts = _alternatives(c, True)
+        return [Alt(alts)] if alts else []
     if k == "Int":
         return []
     v = _val(c)
@@ -923,6 +939,21 @@ class Analysis:
                         new.add(imp)
                     for pf in self.E.call_post(self.f, rv):
                         new.add(pf)
+                elif is_pure(rv) and _is_boolean(rv) and lp[0][2] not in _rvars(rv) and len(lp) == 1:
+                    # a flag: `ok = (a == b) && !strcmp(..)` or `at_start = (pos == 0 || s[pos-1] == '.')`.  Testing the
+                    # flag later gives what the expression said, as long as its operands are not written in between
+                    # (the conditional facts are killed like any other fact)
+                    for pol, rel in ((True, "!="), (False, "==")):
+                        fs = [g for g in cond_facts(rv, pol) if g.kind == "cmp"]
+                        for g in fs:
+                            if not (g.vars & {lp[0][2]}):
+                                new.add(Imp(lhs, rel, 0, g))
+                        if not fs:
+                            alts = _alternatives(rv, pol)
+                            if alts:
+                                new.add(Imp(lhs, rel, 0, Alt(alts)))
+                    if not _narrows(lhs.get("t"), rv, d):
+                        new.add(Fact("==", lhs, rv))
                 elif is_pure(rv) and rv.get("k") not in ("InitList", "Str") and (
                         lp[0][2] not in _rvars(rv) or _disjoint_write(lp, lhs.get("t"), rv)):
                     if _narrows(lhs.get("t"), rv, d):
